@@ -228,7 +228,9 @@ int inflate(z_streamp strm, int flush)
         g_shim.inflate_budget_exceeded = true;
         return Z_DATA_ERROR;
     }
-    return fn(strm, flush);
+    int rc = fn(strm, flush);
+    if (rc == Z_BUF_ERROR) ++g_shim.inflate_buf_errors;
+    return rc;
 }
 }  // extern "C"
 
